@@ -56,9 +56,15 @@ pub struct TrainRun {
     pub getters: HashMap<String, f64>,
     pub fric_force_max: f64,
     pub final_state: Option<TrainState>,
+    /// where the final stopping curve (braking points whose target is 0) begins, read from
+    /// the sim's own braking points at the end of the run
+    pub stop_curve_start: Option<f64>,
 }
 
 impl TrainRun {
+    pub fn empty_pub() -> Self {
+        Self::empty()
+    }
     fn empty() -> Self {
         Self {
             states: vec![],
@@ -77,6 +83,7 @@ impl TrainRun {
             getters: HashMap::new(),
             fric_force_max: 0.0,
             final_state: None,
+            stop_curve_start: None,
         }
     }
 }
@@ -172,6 +179,7 @@ pub fn run_case(case: &TrainCase) -> TrainRun {
         }
         run.states = sim.history.state_vec();
         run.final_state = Some(sim.state);
+        run.stop_curve_start = stop_curve_start(&sim);
         if std::env::var("VERIF_DUMP").is_ok() {
             let n = run.states.len();
             let from: usize = std::env::var("VERIF_DUMP_FROM").ok().and_then(|s| s.parse().ok()).unwrap_or(n.saturating_sub(8));
@@ -304,6 +312,16 @@ pub fn probe_real_walk(case: &TrainCase, secs: u64) -> Option<String> {
     };
     let _ = std::fs::remove_file(&f);
     out
+}
+
+/// start of the stopping curve of a speed-limited sim (None when there are no braking points)
+pub fn stop_curve_start(sim: &SpeedLimitTrainSim) -> Option<f64> {
+    let v = serde_json::to_value(&sim.braking_points).ok()?;
+    let pts = v.get("points")?.as_array()?;
+    pts.iter()
+        .filter(|p| p["speed_target"].as_f64() == Some(0.0))
+        .filter_map(|p| p["offset"].as_f64())
+        .fold(None, |m: Option<f64>, x| Some(m.map_or(x, |y| y.min(x))))
 }
 
 /// `walk()` = save_state + walk_internal; both are needed separately for the link-by-link
